@@ -678,6 +678,67 @@ class VMultiprocessing:
         return self.world.cpu_count
 
 
+class VPsProc:
+    """psutil.Process stand-in for a live virtual worker."""
+
+    def __init__(self, world, child):
+        self._w, self._c = world, child
+        self.pid = 4_000_000 + child.idx
+
+    def _check(self):
+        import psutil
+        if self._c.state != 'running':
+            raise psutil.NoSuchProcess(self.pid)
+
+    def oneshot(self):
+        import contextlib
+        self._check()
+        return contextlib.nullcontext()
+
+    def create_time(self):
+        self._check()
+        return 1_600_000_000.0 + self._c.idx
+
+    def num_threads(self):
+        self._check()
+        return 1
+
+    def cpu_percent(self, interval=None):
+        self._check()
+        return 50.0
+
+    def memory_percent(self, memtype='rss'):
+        self._check()
+        return 1.5
+
+    def children(self, recursive=False):
+        self._check()
+        return []
+
+
+class VPsutil:
+    """Module object replacing `psutil` inside labtech.runners.process: virtual pids resolve to the
+    virtual workers (so the task monitor really lists them), everything else is the real psutil."""
+
+    def __init__(self, world):
+        import psutil
+        self._real = psutil
+        self.world = world
+        self.NoSuchProcess = psutil.NoSuchProcess
+
+    def Process(self, pid=None):
+        if pid is not None and pid >= 4_000_000:
+            idx = pid - 4_000_000
+            ch = self.world.children[idx] if idx < len(self.world.children) else None
+            if ch is None or ch.state != 'running':
+                raise self._real.NoSuchProcess(pid)
+            return VPsProc(self.world, ch)
+        return self._real.Process(pid)
+
+    def __getattr__(self, name):
+        return getattr(self._real, name)
+
+
 class VWorld:
     """State of the virtual OS for one execution."""
 
@@ -1156,7 +1217,7 @@ class VWorld:
 class Patched:
     """Context manager installing the virtual layer into labtech.runners.process."""
 
-    NAMES = ('multiprocessing', 'Thread', 'signal', 'os', 'Lock', 'RLock')
+    NAMES = ('multiprocessing', 'Thread', 'signal', 'os', 'Lock', 'RLock', 'psutil')
 
     def __init__(self, world: VWorld):
         self.world = world
@@ -1175,6 +1236,7 @@ class Patched:
             def thread_cls(*a, **kw):   # noqa
                 return HThread(sched, *a, **kw)
         repl = {'multiprocessing': VMultiprocessing(self.world), 'Thread': thread_cls, 'signal': VSignal(self.world), 'os': VOs(self.world)}
+        repl['psutil'] = VPsutil(self.world)
         if self.world.sched is not None:
             repl['Lock'] = repl['RLock'] = lambda: VLock(sched)
         else:
